@@ -23,7 +23,7 @@ let do_run ic row off lines cmds =
   let out = ref [] and unsup = ref false in
   List.iter (fun w ->
     let (c, n) = parse_cmd w in
-    let ((st1, ok), (r1, o1)) = search_cmd (ref_rfind ic) ref_rcomp !st lb c n !r !o in
+    let ((st1, ok), (r1, o1)) = search_cmd (fm_suffix (ref_rfind ic)) ref_rcomp !st lb c n !r !o in
     st := st1; r := r1; o := o1;
     if st1.kwd <> [] && not (ref_rcomp st1.kwd) then unsup := true;
     out := Printf.sprintf "%d %d %d" (if ok then 1 else 0) (int_of_nat r1) (int_of_nat o1) :: !out) cmds;
@@ -41,6 +41,6 @@ let () =
     | ["occ"; ic; kw; s] ->
       let kw = bytes_of_hex kw and s = bytes_of_hex s in
       if not (ref_rcomp kw) then pr "unsupported\n" else
-      pr "%s\n" (String.concat "," (List.map (fun x -> string_of_int (int_of_nat x))
+      pr "%s\n" (String.concat "," (List.map (fun (x, _) -> string_of_int (int_of_nat x))
                   (occ (ref_wfind (ic = "1") kw) (nat_of_int (List.length s + 1)) s O)))
     | _ -> pr "?\n")
